@@ -130,7 +130,14 @@ def compute_node_semantic_id(preproc_meta: Dict[str, Any]) -> str:
 
     def _canonicalize(obj: Any) -> Any:
         if isinstance(obj, dict):
-            return {k: _canonicalize(v) for k, v in obj.items() if k != "expr"}
+            # ``expr`` is dropped only where it is the raw (cosmetic) expression
+            # text; a sweep variable or parameter *named* ``expr`` maps to a dict
+            # and is part of the meaning.
+            return {
+                k: _canonicalize(v)
+                for k, v in obj.items()
+                if not (k == "expr" and isinstance(v, str))
+            }
         if isinstance(obj, list):
             return [_canonicalize(v) for v in obj]
         return obj
